@@ -139,6 +139,69 @@ def w_image(pid, tier, seed, job):
     return ctx.dump()
 
 
+def w_roland(pid, tier, seed, job):
+    """Roland S-7xx image cut at cluster boundaries -1/0/+1, inside the FAT / directory / parameter areas and at random offsets"""
+    ctx = F.Ctx(pid, tier, seed)
+    try:
+        import roland_writer as W
+    except ImportError:
+        return ctx.dump()
+    rng = random.Random(job)
+    d = W.Disk(fat_version=rng.choice([1, 2]))
+    ss, info = [], {}
+    for i in range(rng.randint(2, 4)):
+        nw = rng.choice([300, 4608, 5000, 9300])
+        chain = list(range(10 + 4 * i, 10 + 4 * i + max(1, -(-2 * nw // W.CLUSTER))))
+        if rng.random() < 0.5:
+            chain.reverse()
+        smp = W.Sample("SMP%d" % i, W.tone(nw, i + 1), loop_mode=rng.choice([0, 1, 2, 3, 4]), chain=chain)
+        ss.append(d.add(W.SAMPLE, smp))
+        info["VOL/PERF/SMP%d.wav" % i] = chain
+    pt = d.add(W.PARTIAL, W.Partial("PT", ss))
+    pa = d.add(W.PATCH, W.Patch("PATCH", [pt]))
+    pf = d.add(W.PERFORMANCE, W.Performance("PERF", [pa]))
+    d.add(W.VOLUME, W.Volume("VOL", [pf]))
+    img = W.image_bytes(d)
+    with R.TempImage(img, "r.img") as path:
+        r0, tree0, rep0 = R.export(path)
+    full = pcm_of(tree0)
+    if not ctx.require("the complete image exports", {"roland": job}, r0.exc is None and len(full) == len(ss) and all(v[0] for v in full.values()), r0.exc_name):
+        return ctx.dump()
+    base = W.MIN_IMAGE_SIZE                      # start of cluster 2
+    def cl_off(c):
+        return base + (c - 2) * W.CLUSTER
+    cuts = {0, 100, 511, 512, W.FAT_OFFSET - 1, W.FAT_OFFSET, W.FAT_OFFSET + 40, W.FAT_OFFSET + 0x20000,
+            0x0A0800, 0x0A1800 + 5, 0x0CD800 + 33, 0x255800 + 1, 0x255800 + 48 * 2, base - 1, base, base + 1}
+    for ch in info.values():
+        for c in ch:
+            for dd in (-1, 0, 1, W.CLUSTER // 2, W.CLUSTER - 1, W.CLUSTER):
+                cuts.add(cl_off(c) + dd)
+    for _ in range(6 if tier == "quick" else 40):
+        cuts.add(rng.randrange(0, len(img)))
+    cuts = sorted(c for c in cuts if 0 <= c < len(img))
+    if tier == "quick":
+        cuts = cuts[::2]
+    for c in cuts:
+        with R.TempImage(img[:c], "r.img") as path:
+            r, tree, rep = R.export(path)
+        case = {"roland": True, "seed": job, "cut": c}
+        ctx.count("roland_cut", (job, c), nontrivial=True)
+        got = pcm_of({p_: tree[p_] for p_ in rep if p_ in tree})
+        for p_, (ok, why, pcm, ch_) in got.items():
+            c2 = dict(case, file=p_)
+            if not ctx.require("every reported file is a well-formed WAV", c2, ok, why):
+                continue
+            if not ctx.require("every reported file is also reported for the complete image", c2, p_ in full, sorted(full)):
+                continue
+            ctx.require("reported PCM is a prefix of the complete image's PCM for the same path (no foreign bytes)", c2,
+                        full[p_][2][:len(pcm)] == pcm, {"len": len(pcm), "full": len(full[p_][2])})
+        for p_, chain in info.items():
+            if c >= base and all(cl_off(x) + W.CLUSTER <= c for x in chain):
+                ctx.require("a sample whose tables and clusters all lie before the cut is exported complete", dict(case, file=p_),
+                            p_ in got and got[p_][0] and got[p_][2] == full[p_][2], {"reported": sorted(got), "exc": r.exc_name})
+    return ctx.dump()
+
+
 def w_cdda(pid, tier, seed, job):
     ctx = F.Ctx(pid, tier, seed)
     rng = random.Random(job)
@@ -374,6 +437,7 @@ def run(ctx):
     F.pmap(ctx, w_views, [ctx.seed * 3 + i for i in range(4 if ctx.quick else 16)])
     F.pmap(ctx, w_image, [ctx.seed * 131 + i for i in range(12 if ctx.quick else 96)])
     F.pmap(ctx, w_cdda, [ctx.seed * 977 + i for i in range(8 if ctx.quick else 48)])
+    F.pmap(ctx, w_roland, [ctx.seed * 61 + i for i in range(4 if ctx.quick else 24)])
 
 
 def replay(ctx, case):
